@@ -77,10 +77,14 @@ def _bind(h: T.Any, call: ast.Call, implicit: int) -> T.Optional[_Helper]:
     return _Helper(h, mapping)
 
 
+MEMO_DECORATORS = {'lru_cache', 'functools.lru_cache', 'functools.cache', 'cache'}     # memoisation does not change what a pure function returns
+
+
 def _resolve_helper(meths: T.Dict[str, T.Any], current: str, call: ast.AST, closures: T.Optional[T.Dict[str, T.Any]] = None) -> T.Optional[_Helper]:
     if isinstance(call, ast.Call) and isinstance(call.func, ast.Name) and closures and call.func.id in closures:
         h = closures[call.func.id]
-        return None if h.decorator_list else _bind(h, call, 0)      # E2: nested function of the method itself
+        # E2: nested function of the method itself / private function of the same module (possibly memoised)
+        return None if (_decorators(h) - MEMO_DECORATORS) else _bind(h, call, 0)
     if not (isinstance(call, ast.Call) and isinstance(call.func, ast.Attribute)):
         return None
     recv = call.func.value
@@ -150,6 +154,10 @@ def inline_helpers(mod: Module, cls: str, fn: T.Any, depth: int = 3) -> T.Any:
     meths = mod.methods(cls) if cls and mod.has_cls(cls) else {}
     cur = copy.deepcopy(fn)
     closures = {st.name: st for st in cur.body if isinstance(st, ast.FunctionDef)}
+    local_names = set(closures)
+    for q, h in mod.funcs().items():        # private module-level functions (helpers moved out of the class)
+        if '.' not in q and q.startswith('_') and not q.endswith('__') and q not in closures and isinstance(h, ast.FunctionDef) and h is not fn:
+            closures[q] = h
     if closures:
         free_ok = {}
         for n, h in closures.items():
@@ -184,6 +192,17 @@ def inline_helpers(mod: Module, cls: str, fn: T.Any, depth: int = 3) -> T.Any:
                         setattr(st, field, splice(sub))
                 for hd in getattr(st, 'handlers', []) or []:
                     hd.body = splice(hd.body)
+                if isinstance(st, ast.Return) and st.value is not None:
+                    hr = _resolve_helper(meths, fn.name, st.value, closures)
+                    if hr is not None:
+                        b = _body_of(hr.fn)
+                        locs = _locals_of(b)
+                        if not (locs & set(hr.mapping)) and not any(isinstance(n, (ast.Yield, ast.YieldFrom)) for x in b for n in ast.walk(x)):
+                            tag = next(_uid)
+                            rename = {n: f'{n}__{hr.fn.name.strip("_")}{tag}' for n in locs}
+                            out.extend(T.cast(ast.stmt, _subst(x, hr.mapping, rename)) for x in b)   # `return h(...)`: h's returns are ours
+                            changed = True
+                            continue
                 call = st.value if isinstance(st, (ast.Expr, ast.Assign, ast.AnnAssign)) else None
                 if isinstance(st, ast.FunctionDef) and st.name in closures:
                     out.append(st)
@@ -222,7 +241,7 @@ def inline_helpers(mod: Module, cls: str, fn: T.Any, depth: int = 3) -> T.Any:
         if not changed:
             break
     # closures that are no longer referenced disappear
-    for n in list(closures):
+    for n in list(local_names & set(closures)):
         refs = [x for st in cur.body if not (isinstance(st, ast.FunctionDef) and st.name == n) for x in ast.walk(st) if isinstance(x, ast.Name) and x.id == n]
         if not refs:
             cur.body = [st for st in cur.body if not (isinstance(st, ast.FunctionDef) and st.name == n)]
@@ -443,6 +462,16 @@ def _stmt_forms(stmts: T.List[ast.stmt]) -> T.List[ast.stmt]:
             if disp and m == 'update':
                 out += one(st.value.func.value, 'add', a0.elts)  # type: ignore[union-attr]
                 continue
+        # A3: receiver selected by a conditional expression
+        if isinstance(st, ast.Expr) and isinstance(st.value, ast.Call) and isinstance(st.value.func, ast.Attribute) and isinstance(st.value.func.value, ast.IfExp):
+            sel = st.value.func.value
+
+            def arm(v: ast.expr) -> ast.stmt:
+                c2 = copy.deepcopy(st.value)
+                c2.func.value = v  # type: ignore[attr-defined]
+                return ast.copy_location(ast.Expr(value=c2), st)
+            out += _stmt_forms([ast.copy_location(ast.If(test=sel.test, body=[arm(sel.body)], orelse=[arm(sel.orelse)]), st)])
+            continue
         # C4: flag = flag or cond
         if isinstance(st, ast.Assign) and len(st.targets) == 1 and isinstance(st.value, ast.BoolOp) and isinstance(st.value.op, ast.Or) \
                 and attr_chain(st.targets[0]) and len(st.value.values) >= 2:
